@@ -11,10 +11,19 @@ The patches are plain `diff -u` output with a/ b/ prefixes (apply with `patch -p
 selftest.sh only needs the .patch files; this script is kept so that the suite can be
 regenerated when the pinned tree moves.
 """
-import difflib, os, re, sys
+import difflib, os, re, subprocess, sys
 
 REPO = sys.argv[1] if len(sys.argv) > 1 else "/repo"
 HERE = os.path.dirname(os.path.abspath(__file__))
+
+
+def read_pristine(rel):
+    """the COMMITTED version of a file (the working tree may carry somebody's experiment)"""
+    try:
+        return subprocess.run(["git", "-C", REPO, "show", "HEAD:" + rel], check=True, capture_output=True, text=True).stdout
+    except Exception:
+        with open(os.path.join(REPO, rel)) as f:
+            return f.read()
 
 
 class Tree:
@@ -24,8 +33,7 @@ class Tree:
 
     def read(self, rel):
         if rel not in self.files:
-            with open(os.path.join(REPO, rel)) as f:
-                s = f.read()
+            s = read_pristine(rel)
             self.files[rel] = s
             self.orig[rel] = s
         return self.files[rel]
@@ -658,6 +666,28 @@ def _(t):
 
 
 
+@harmless("h64-length-in-local-and-tagless-switch", "guards: `if n := len(s); n > L`; status guard as a tagless switch")
+def _(t):
+    t.sub(STRLIST, "\t\tif len(s) > MaxStrLen {\n", "\t\tif n := len(s); n > MaxStrLen {\n")
+    t.sub(SORTER, "\t\t\tif len(blk) == 255 {\n", "\t\t\tfilled := len(blk)\n\t\t\tif filled == 255 {\n")
+    t.sub(TXN, "\tif tx.Status == ref.TSCommitted {\n\t\treturn nil, fmt.Errorf(\"transaction %s is already committed\", id)\n\t}\n",
+          "\tswitch {\n\tcase tx.Status == ref.TSCommitted:\n\t\treturn nil, fmt.Errorf(\"transaction %s is already committed\", id)\n\t}\n")
+
+
+@harmless("h65-sort-find-lookup", "findCommitsToRemove: lookup with sort.Find and its `found` result")
+def _(t):
+    t.sub(PRUNE, "\t\tind := sort.Search(len(commitKeys), func(i int) bool {\n\t\t\treturn string(commitKeys[i]) >= string(sum)\n\t\t})\n\t\tif ind < len(commitKeys) && string(commitKeys[ind]) == string(sum) {\n\t\t\tcommitFound[ind] = true\n\t\t}\n",
+          "\t\tind, found := sort.Find(len(commitKeys), func(i int) int {\n\t\t\treturn strings.Compare(string(sum), string(commitKeys[i]))\n\t\t})\n\t\tif found {\n\t\t\tcommitFound[ind] = true\n\t\t}\n")
+    t.sub(PRUNE, "\t\"sort\"\n", "\t\"sort\"\n\t\"strings\"\n")
+
+
+@harmless("h66-errchan-extra-room-and-package-var", "errChan gets numWorkers+1 slots; row addressing through a package level var")
+def _(t):
+    t.sub(INS, "\ti.errChan = make(chan error, i.numWorkers)\n", "\ti.errChan = make(chan error, i.numWorkers+1)\n")
+    t.sub("pkg/diff/table_reader.go", "\tblkOffset := r.off / objects.BlockSize\n\trowOffset := byte(r.off - blkOffset*objects.BlockSize)\n", "\tblkOffset := r.off / rowsPerBlock\n\trowOffset := byte(r.off - blkOffset*rowsPerBlock)\n")
+    t.append("pkg/diff/table_reader.go", "\nvar rowsPerBlock = objects.BlockSize\n")
+
+
 # ============================================================================ breaking
 
 
@@ -1048,6 +1078,87 @@ def _(t):
     t.files[f] = s[:a] + pre + s[b:c] + savec + s[c:]
     if '"github.com/pckhoi/meow"' not in s:
         t.sub(f, '\t"github.com/spf13/cobra"\n', '\t"github.com/pckhoi/meow"\n\t"github.com/spf13/cobra"\n')
+
+
+@breaking("b63-addrow-error-only-logged", "SortFile: AddRow's error is tested but only logged, ingestion continues")
+def _(t):
+    t.sub(SORTER, "\t\tif err = s.AddRow(row); err != nil {\n\t\t\treturn\n\t\t}\n", "\t\tif err = s.AddRow(row); err != nil {\n\t\t\tfmt.Fprintln(os.Stderr, err)\n\t\t}\n")
+
+
+@breaking("b64-commit-guard-returns-stale-err", "transaction.Commit: guard returns `nil, err` where err is the nil error of GetTransaction")
+def _(t):
+    t.sub(TXN, "\tif tx.Status == ref.TSCommitted {\n\t\treturn nil, fmt.Errorf(\"transaction %s is already committed\", id)\n\t}\n", "\tif tx.Status == ref.TSCommitted {\n\t\treturn nil, err\n\t}\n")
+
+
+@breaking("b65-read-through-method-value", "Table.readBlock: one Read through a method value (rd := r.Read; rd(b))")
+def _(t):
+    t.sub(TABLE, "\tb := make([]byte, 16)\n\tn, err := io.ReadFull(r, b)\n", "\tb := make([]byte, 16)\n\trd := r.Read\n\tn, err := rd(b)\n")
+
+
+@breaking("b66-single-read-in-helper", "BlockIndex.ReadFrom reads through a helper that issues one Read")
+def _(t):
+    t.sub("pkg/objects/block_index.go", "\tb := []byte{0}\n\tn, err := io.ReadFull(r, b)\n", "\tb := []byte{0}\n\tn, err := readSome(r, b)\n")
+    t.append("pkg/objects/block_index.go", "\nfunc readSome(r io.Reader, b []byte) (int, error) {\n\treturn r.Read(b)\n}\n")
+
+
+@breaking("b67-sortblocks-sorts-a-copy", "Inserter.sortBlocks sorts a copy of asyncBlocks and then reads the unsorted original")
+def _(t):
+    t.sub(INS, "\tsort.Slice(o.asyncBlocks, func(i, j int) bool {\n\t\treturn o.asyncBlocks[i].Offset < o.asyncBlocks[j].Offset\n\t})\n",
+          "\ttmp := append([]asyncBlock(nil), o.asyncBlocks...)\n\tsort.Slice(tmp, func(i, j int) bool {\n\t\treturn tmp[i].Offset < tmp[j].Offset\n\t})\n")
+
+
+@breaking("b68-deferred-updatetransaction", "transaction.Commit: UpdateTransaction deferred before the loop (runs on the failure paths too)")
+def _(t):
+    upd = "\ttx.End = time.Now()\n\ttx.Status = ref.TSCommitted\n\tif err = rs.UpdateTransaction(tx); err != nil {\n\t\treturn nil, err\n\t}\n"
+    t.sub(TXN, upd, "")
+    t.sub(TXN, "\tcommits = map[string]*objects.Commit{}\n\tbuf := bytes.NewBuffer(nil)\n", "\ttx.End = time.Now()\n\ttx.Status = ref.TSCommitted\n\tdefer rs.UpdateTransaction(tx)\n\tcommits = map[string]*objects.Commit{}\n\tbuf := bytes.NewBuffer(nil)\n")
+
+
+@breaking("b69-deferred-indextable", "saveTable: IndexTable / ProfileTable run in a defer, i.e. after SaveTable")
+def _(t):
+    t.sub(RECV, "\tif err = ingest.IndexTable(r.db, sum, tbl, r.logger.V(1)); err != nil {\n\t\treturn nil, err\n\t}\n\tif err = ingest.ProfileTable(r.db, sum, tbl); err != nil {\n\t\treturn nil, err\n\t}\n",
+          "\tdefer func() {\n\t\tif err == nil {\n\t\t\terr = ingest.IndexTable(r.db, sum, tbl, r.logger.V(1))\n\t\t}\n\t\tif err == nil {\n\t\t\terr = ingest.ProfileTable(r.db, sum, tbl)\n\t\t}\n\t}()\n")
+
+
+@breaking("b70-guard-in-helper-result-ignored", "transaction.Commit: status guard moved into a helper whose error is dropped")
+def _(t):
+    t.sub(TXN, "\tif tx.Status == ref.TSCommitted {\n\t\treturn nil, fmt.Errorf(\"transaction %s is already committed\", id)\n\t}\n", "\tensureOpen(tx, id)\n")
+    t.append(TXN, "\nfunc ensureOpen(tx *ref.Transaction, id uuid.UUID) error {\n\tif tx.Status == ref.TSCommitted {\n\t\treturn fmt.Errorf(\"transaction %s is already committed\", id)\n\t}\n\treturn nil\n}\n")
+
+
+@breaking("b71-guard-on-other-status", "transaction.Discard: guard tests the status against TSInProgress (refuses the wrong state)")
+def _(t):
+    t.sub(TXN, "\tif tx.Status == ref.TSCommitted {\n\t\treturn fmt.Errorf(\"cannot discard committed transaction\")\n\t}\n", "\tif tx.Status == ref.TSInProgress && ref.TSCommitted != \"\" {\n\t\treturn fmt.Errorf(\"cannot discard committed transaction\")\n\t}\n")
+
+
+@breaking("b72-local-mutex", "insertBlock: locks a mutex local to the goroutine instead of the shared one")
+def _(t):
+    t.sub(INS, "\tdefer i.wg.Done()\n\tfor blk := range i.blocks {\n", "\tvar mutex sync.Mutex\n\tdefer i.wg.Done()\n\tfor blk := range i.blocks {\n")
+    t.sub(INS, "\t\ti.mutex.Lock()\n", "\t\tmutex.Lock()\n")
+    t.sub(INS, "\t\ti.mutex.Unlock()\n", "\t\tmutex.Unlock()\n")
+
+
+@breaking("b73-errchan-smaller-than-workers", "ingestTableFromBlocks: errChan capacity numWorkers-1")
+def _(t):
+    t.sub(INS, "\ti.errChan = make(chan error, i.numWorkers)\n", "\ti.errChan = make(chan error, i.numWorkers-1)\n")
+
+
+@breaking("b74-setwithlog-reflog-skipped-select", "SetWithLog: old value no longer read inside the transaction (read before it, on s.db)")
+def _(t):
+    t.sub(SQLSTORE, "func (s *Store) SetWithLog(key string, sum []byte, rl *ref.Reflog) error {\n\treturn sqlutil.RunInTx(s.db, func(tx *sql.Tx) error {\n\t\trow := tx.QueryRow(`SELECT sum FROM refs WHERE name = ?`, key)\n",
+          "func (s *Store) SetWithLog(key string, sum []byte, rl *ref.Reflog) error {\n\trow := s.db.QueryRow(`SELECT sum FROM refs WHERE name = ?`, key)\n\treturn sqlutil.RunInTx(s.db, func(tx *sql.Tx) error {\n")
+
+
+@breaking("b75-sort-find-result-ignored", "findCommitsToRemove: sort.Find used but `found` not consulted")
+def _(t):
+    t.sub(PRUNE, "\t\tind := sort.Search(len(commitKeys), func(i int) bool {\n\t\t\treturn string(commitKeys[i]) >= string(sum)\n\t\t})\n\t\tif ind < len(commitKeys) && string(commitKeys[ind]) == string(sum) {\n\t\t\tcommitFound[ind] = true\n\t\t}\n",
+          "\t\tind, found := sort.Find(len(commitKeys), func(i int) int {\n\t\t\treturn strings.Compare(string(sum), string(commitKeys[i]))\n\t\t})\n\t\t_ = found\n\t\tif ind < len(commitKeys) {\n\t\t\tcommitFound[ind] = true\n\t\t}\n")
+    t.sub(PRUNE, "\t\"sort\"\n", "\t\"sort\"\n\t\"strings\"\n")
+
+
+@breaking("b76-strlist-limit-in-local-raised", "StrListEncoder.Encode: `if n := len(s); n > MaxStrLen+1`")
+def _(t):
+    t.sub(STRLIST, "\t\tif len(s) > MaxStrLen {\n", "\t\tif n := len(s); n > MaxStrLen+1 {\n")
 
 
 def main():
